@@ -810,7 +810,7 @@ def build_cases(ctx):
     return cases
 
 N_EX_QUICK, N_EX_THOROUGH = 20, 400
-N_THEOREMS = 61
+N_THEOREMS = 70
 
 RULE = ("one evaluation = one (body, driver history) pair run on goja and on the Lean model (plus one per mechanism dump); "
         "distinct & non-trivial = distinct (mode, body, history) whose trace contains at least one suspension followed by a further command")
@@ -826,7 +826,7 @@ def main(ctx):
         # a broken tie does not stop the model driver from building)
         tok, terrs = ctx.lake_build(["GojaModel.C09.Tie"])
         if tok:
-            ctx.audit("GojaModel.C09.Tie", expect_min=8)
+            ctx.audit("GojaModel.C09.Tie", expect_min=10)
     if ctx.tier == "thorough":
         ctx.leanchecker("GojaModel.C09.Props")
     t1 = time.time()
